@@ -58,8 +58,12 @@ def C11(tier, seed):
     from harness import step, step_replay
     from .core import Run
 
-    seg = [("paint", 3, G2_, {})] + ([] if tier == "quick" else [("paint", 3, G3_, {"iou": True}),
-                                                                 ("UserAddNode", 3, G2_, {})])
+    # scenario-directed: node 1 divides into 2 and 3, four cells per frame - a stroke can shrink BOTH daughters before
+    # the nested add of a third child is refused (two sub-edits to roll back)
+    division = dict(alive=[1, 1, 1], t=[0, 1, 1], edges=[(0, 1), (0, 2)])
+    seg = [("paint", 3, G2_, {}), ("paint", 3, (2, 1, 4), {"fixed": division})] + (
+        [] if tier == "quick" else [("paint", 3, G3_, {"iou": True}), ("UserAddNode", 3, G2_, {}),
+                                    ("paint", 3, (2, 1, 4), {"fixed": division, "iou": True})])
     n = 3 if tier == "quick" else 4
     extra = [Run(f"step:UserAddNode:N={n}:per_axis_position", step.harness,
                  dict(N=n, action="UserAddNode", props=["C11"], multi_pos=True), step_replay.replay, (),
@@ -342,10 +346,12 @@ G2, G3, G3D = (2, 1, 2), (3, 1, 2), (2, 1, 1, 2)
 def C07(tier, seed):
     if tier == "quick":
         # (2,1,3): three cells per frame - a node can consist of two parts that are not adjacent
-        specs = [("paint", 2, G2, {}), ("paint", 2, G3D, {}), ("paint", 1, (2, 1, 3), {}), ("UserDeleteNode", 2, G2, {}),
-                 ("UserAddNode", 2, G2, {})]
+        # (2,2,1,1): 3D+t with TWO z-planes (a node can span planes); (2,1,1,2) is in the thorough tier
+        specs = [("paint", 2, G2, {}), ("paint", 2, (2, 2, 1, 1), {}), ("paint", 1, (2, 1, 3), {}),
+                 ("UserDeleteNode", 2, G2, {}), ("UserAddNode", 2, G2, {})]
     else:
-        specs = [("paint", 3, G2, {}), ("paint", 2, G3, {}), ("paint", 2, G3D, {}), ("paint", 2, (2, 1, 4), {}),
+        specs = [("paint", 3, G2, {}), ("paint", 2, G3, {}), ("paint", 2, G3D, {}), ("paint", 2, (2, 2, 1, 1), {}),
+                 ("paint", 2, (2, 1, 4), {}),
                  ("paint", 2, (2, 2, 2), {}), ("UserDeleteNode", 3, G3, {}),
                  ("UserAddNode", 3, G2, {}), ("UserAddNode", 2, G3D, {})]
     return _seg("C07", tier, seed, specs)
@@ -413,8 +419,8 @@ def _export_runs(prop, tier, ops):
         c.update(cfg)
         if tier != "quick" and c.get("seg", True) and "shape" not in cfg:
             c["shape"] = (4, 1, 1) if c.get("op") == "csv" else (3, 1, 2)
-        runs.append(Run(f"export:{name}:N={n}", export.harness, c, export_replay.replay,
-                        ("exported", "witness:chain_of_three"), f"solution forest on <= {n} node slots (all shapes, symbolic times/ids), every "
+        runs.append(Run(f"export:{name}:N={c['N']}", export.harness, c, export_replay.replay,
+                        ("exported", "witness:chain_of_three") if c["N"] >= 3 else ("exported",), f"solution forest on <= {n} node slots (all shapes, symbolic times/ids), every "
                         f"subset of its nodes as selection, label array with arbitrary non-negative symbolic labels"))
     return runs
 
@@ -434,7 +440,9 @@ def C15(tier, seed):
            ("csv", dict(op="csv")), ("csv:display", dict(op="csv", display_names=True)),
            ("csv:export_seg", dict(op="csv", export_seg=True)), ("geff:noseg", dict(op="geff", seg=False)),
            ("geff:3D", dict(op="geff", shape=(3, 1, 1, 1))), ("csv:3D", dict(op="csv", shape=(3, 1, 1, 1))),
-           ("csv:noseg:per_axis_pos", dict(op="csv", seg=False, multi_pos=True))]
+           ("csv:noseg:per_axis_pos", dict(op="csv", seg=False, multi_pos=True)),
+           # more frames than one chunk (64) of the exporter's chunk-wise masking loop
+           ("geff:65_frames", dict(op="geff", shape=(65, 1, 1), N=2))]
     return run_property("C15", tier, _export_runs("C15", tier, ops), explanation=R.EXPL, seed=seed,
                         assumptions=EXPORT_ASSUME, stubs=EXPORT_STUBS)
 
